@@ -126,7 +126,7 @@ Section Valid.
     pysum (map (fun s => rate_at (g_migs g) (d_name s) dst t) (g_demes g)).
 
   Definition IngressOK (g : graph) : Prop :=
-    forall d t, In d (g_demes g) -> ok t -> nle n0 t = true ->
+    forall d t, In d (g_demes g) -> ok t -> nle n0 t = true -> nisinf t = false ->
       let s := ingress g (d_name d) t in
       nle s n1 = true \/ isclose0 s n1 = true.
 
